@@ -41,7 +41,8 @@ def printed_json(stdout, tag):
     return out
 
 
-JO_FAST = ["-XX:TieredStopAtLevel=1"]      # short TLC runs: skip the optimizing JIT
+JO_FAST = ["-XX:TieredStopAtLevel=1", "-Xmx2g"]      # short TLC runs: skip the optimizing JIT, small heap
+JO_BIG = ["-Xmx4g"]                                   # long runs: bounded heap (several JVMs run side by side)
 
 
 def validate_traces(module, cfg, traces, spec_dir, out_dir, tag="trace", timeout=1800):
@@ -53,7 +54,7 @@ def validate_traces(module, cfg, traces, spec_dir, out_dir, tag="trace", timeout
         for t in traces:
             fh.write(json.dumps(t) + "\n")
     res = run_tlc(module, cfg, spec_dir=spec_dir, env={"TRACE_FILE": str(tf)}, workers=1, tag=tag, timeout=timeout,
-                  java_opts=JO_FAST if sum(len(t) for t in traces) < 20000 else None)
+                  java_opts=JO_FAST if sum(len(t) for t in traces) < 20000 else JO_BIG)
     v = TraceVerdict(ok=res.ok, res=res)
     for m in re.finditer(r'<<"REJECTED", (\d+), (\d+)>>', res.stdout):
         v.rejected[int(m.group(1)) - 1] = int(m.group(2)) - 1
@@ -341,7 +342,7 @@ class NormRecorder:
             chunks = [outs] + [[] for _ in evs[1:]]
         for i, (e, o) in enumerate(zip(evs, chunks)):
             last = i == len(evs) - 1
-            e.update(out=o, inp=inp if last else [], other=other if last else False, chk=last)
+            e.update(out=o, inp=inp, other=other if last else False, chk=last)    # pages: inputs are observed after the whole page
             self.trace.append(e)
             self.changed_steps.append(newly if last else [])
         self._monitor(evs, chunks)
